@@ -890,3 +890,19 @@ def gen_many_positions(rng, npos=14, ndist=0):
         s.loads.append({"kind": "d", "term": ["fy", "fx"][k % 2], "local": True, "bar": b["id"], "t0": t0, "v0": Fr(-3 - k), "t1": t0 + Fr(2, 5 * max(1, ndist)) + Fr(3, 1000), "v1": Fr(-1 - 2 * k)})
     s.meta = {"kind": "many-positions/%d+%d" % (npos, ndist)}
     return s
+
+
+def gen_tie_between_supports(rng, k=0):
+    """A pin-jointed bar exactly along an axis (x for even k, y for odd k) between two supports that both hold that direction, pushed
+    along its axis at both ends: what goes straight into a support - its equations are trivial ones, whatever stands beside them."""
+    s = Structure()
+    std_mat_sec(s, rng)
+    L = Fr(rng.choice([100, 250, 40]))
+    x0, y0 = Fr(rng.randint(-20, 20)) * 10, Fr(rng.randint(-20, 20)) * 10
+    s.nodes["a"] = (x0, y0, (True, True, False))
+    s.nodes["b"] = (x0 + L, y0, (True, True, False)) if k % 2 == 0 else (x0, y0 + L, (True, True, False))
+    s.bars.append({"id": "tie", "n1": "a", "l1": LINKS["pin"], "n2": "b", "l2": LINKS["pin"], "mat": "steel", "sec": "ipe"})
+    t = "fx" if k % 2 == 0 else "fy"
+    s.loads = [{"kind": "c", "term": t, "local": False, "bar": "tie", "t": Fr(0), "v": Fr(-250)}, {"kind": "c", "term": t, "local": False, "bar": "tie", "t": Fr(1), "v": Fr(-400)}]
+    s.meta = {"kind": "tie-between-supports"}
+    return s
